@@ -899,7 +899,7 @@ func (sw *c19swarm) emit(ctx *hlib.Ctx) {
 						break
 					}
 				}
-				if pid >= 0 && up[it.a] {
+				if pid >= 0 && up[it.a] && !have[it.a][it.i] {
 					ensure(it.a, it.p)
 					labels = append(labels, fmt.Sprintf("Inject %d (MPay %d %d %d %d)", it.p, it.p, it.a, it.i, pid),
 						fmt.Sprintf("RecvBegin %d %d %d", it.a, it.p, it.i), fmt.Sprintf("RecvEnd %d %d", it.a, it.i))
@@ -949,6 +949,9 @@ func (sw *c19swarm) emit(ctx *hlib.Ctx) {
 			labels = append(labels, fmt.Sprintf("Inject %d (MPay %d %d %d %d)", it.p, it.p, it.a, it.i, it.pid), fmt.Sprintf("RecvBegin %d %d %d", it.a, it.p, it.i))
 			if !have[it.a][it.i] && len(sw.pay[it.pid]) == len(sw.pay[it.i]) {
 				labels = append(labels, fmt.Sprintf("RecvEnd %d %d", it.a, it.i))
+				if crc32.ChecksumIEEE(sw.pay[it.pid]) == crc32.ChecksumIEEE(sw.pay[it.i]) {
+					have[it.a][it.i] = true // a colliding payload: the model accepts it, as the code does
+				}
 			}
 		}
 	}
